@@ -25,20 +25,9 @@ def raises_valueerror(body: List[ast.stmt]) -> bool:
     return bool(body) and isinstance(body[-1], ast.Raise) and body[-1].exc is not None and "ValueError" in ast.unparse(body[-1].exc)
 
 
-def run(repo: Repo, tier: str) -> Report:
-    rep = Report("C09")
-    rep.decided = [
-        "window indices: start = searchsorted(begin, 'left'), stop = searchsorted(end, 'right') on the (group-filtered) time values, on both arms; "
-        "consumers slice [start:stop) => exactly the steps with begin <= t <= end",
-        "recorded attributes are the first step >= begin and the last step <= end",
-        "both kernel sites are dominated by the ValueError checks: start >= stop, stop - start <= 1 (np.any per group), begin after the last / end before the first step",
-        "groups are re-encoded densely through to_linspace, num_groups = number of keys, cal_indices computed with the same groups/num_groups, length validated",
-        "gammastd_grp: per group id in range(num_groups), members = groups == id, fit window = that group's row of cal_indices, result scattered through the same mask",
-    ]
-    rep.declined = ["equality of grouped and per-group ungrouped SPI values (needs two runs)", "pandas/NumPy datetime comparison semantics for dates between steps",
-                    "int16 cal_indices for > 32767 steps (outside the quantifier)"]
-    rep.trusted = ["CPython ast", "numpy searchsorted left/right semantics on a sorted axis", "np.unique returns sorted distinct keys"]
-
+def check_calibration_indices(rep: Report, repo: Repo):
+    """start / stop of the calibration window are searchsorted(begin, 'left') / searchsorted(end, 'right') on the (group's) time values. Shared with C07: the
+    gamma fit of the statement is the fit over exactly the steps begin <= t <= end."""
     # ------------------------------------------------------------------ get_calibration_indices
     fn = repo.func("hdc.algo.utils", "get_calibration_indices")
     P = [a.arg for a in fn.args.args]
@@ -115,6 +104,24 @@ def run(repo: Repo, tier: str) -> Report:
        norm_stmt(dflt[0].value) in (f"len(np.unique(np.array({grp_p})))", f"np.unique({grp_p}).size", f"len(np.unique({grp_p}))"),
        f"{[norm_stmt(d) for d in dflt]}", dflt[0] if dflt else "num_groups default")
 
+    return ob
+
+
+def run(repo: Repo, tier: str) -> Report:
+    rep = Report("C09")
+    rep.decided = [
+        "window indices: start = searchsorted(begin, 'left'), stop = searchsorted(end, 'right') on the (group-filtered) time values, on both arms; "
+        "consumers slice [start:stop) => exactly the steps with begin <= t <= end",
+        "recorded attributes are the first step >= begin and the last step <= end",
+        "both kernel sites are dominated by the ValueError checks: start >= stop, stop - start <= 1 (np.any per group), begin after the last / end before the first step",
+        "groups are re-encoded densely through to_linspace, num_groups = number of keys, cal_indices computed with the same groups/num_groups, length validated",
+        "gammastd_grp: per group id in range(num_groups), members = groups == id, fit window = that group's row of cal_indices, result scattered through the same mask",
+    ]
+    rep.declined = ["equality of grouped and per-group ungrouped SPI values (needs two runs)", "pandas/NumPy datetime comparison semantics for dates between steps",
+                    "int16 cal_indices for > 32767 steps (outside the quantifier)"]
+    rep.trusted = ["CPython ast", "numpy searchsorted left/right semantics on a sorted axis", "np.unique returns sorted distinct keys"]
+
+    ob = check_calibration_indices(rep, repo)
     # ------------------------------------------------------------------ to_linspace (descriptor)
     tl = repo.func("hdc.algo.utils", "to_linspace")
     xs = tl.args.args[0].arg
